@@ -54,7 +54,12 @@ func TestEngine(t *testing.T) {
 	}
 	bin := filepath.Join(tmp, "reloadinner.test")
 	args = append(args, "-o", bin, "./reload/inner")
-	build := exec.Command("go", args...)
+	// the same Go the outer engine was built with (lib/vcheck.py exports VERIF_GO)
+	gobin := os.Getenv("VERIF_GO")
+	if gobin == "" {
+		gobin = "go"
+	}
+	build := exec.Command(gobin, args...)
 	build.Dir = harness
 	build.Env = os.Environ()
 	if out, err := build.CombinedOutput(); err != nil {
